@@ -1,6 +1,8 @@
 import Mathlib.Analysis.SpecialFunctions.Gaussian.GaussianIntegral
 import PysphVerif.Lemmas.KernelIntegral
+import PysphVerif.Lemmas.KernelWrapper
 import PysphVerif.Gen.Kernels
+import PysphVerif.Gen.KernelWrapper
 /-!
 # C08 — every SPH kernel is normalised, compactly supported and self-consistent
 
@@ -202,6 +204,91 @@ theorem gaussian_untruncated_mass (K : KTable) (hK : K ∈ all) (hg : K.gauss = 
   simp only [neg_mul, one_mul, div_one] at h
   rw [h]
   exact gauss_family_fac K hK hg
+
+/-! ## the compiled wrappers `c_kernels.<Kernel>Wrapper`: histories of calls on one object
+
+`Gen/KernelWrapper.lean` is the statement-by-statement transcription of the template class
+`${classname}Wrapper` of `c_kernels.pyx.mako` (regenerated on every run).  A wrapper re-uses two
+scratch members (`xij`, `grad`) for every call; callers keep the returned results while they
+go on calling it.  `observe o code s cs` is what a caller that kept EVERY result of the
+history `cs` (started with arbitrary scratch contents `s`) sees when it looks at them after
+the last call; `observeNow` what it saw at each return. -/
+section wrapper
+open PysphVerif.KernelWrapper
+
+/-- the template's `kernel` and `gradient` bodies are the expected ones: three separation
+stores into the object's own `xij`, the Euclidean norm, the kernel call, and a `return` of a
+number / of a tuple `grad[0], grad[1], grad[2]` of new floats -/
+theorem table_wrapper_code : Gen.KernelWrapper.code = canonical := by decide
+
+/-- no wrapper method returns an object over the wrapper's own storage -/
+theorem table_wrapper_returns_values :
+    Gen.KernelWrapper.code.kernel.ret.isValue = true ∧
+      Gen.KernelWrapper.code.gradient.ret.isValue = true := by decide
+
+/-- **retained results are never changed by later calls** — any number type, any kernel object
+(even one whose `gradient` leaves stale components), any history, any initial scratch contents -/
+theorem wrapper_retained_results_unchanged {α : Type} (o : Ops α) (s : St α)
+    (cs : List (Call α)) :
+    observe o Gen.KernelWrapper.code s cs = observeNow o Gen.KernelWrapper.code s cs :=
+  observe_eq_observeNow o _ table_wrapper_returns_values.1 table_wrapper_returns_values.2 cs s
+
+/-- **history independence**: with a kernel whose `gradient` stores all three components, every
+retained result of every history is the pure function of that call's own arguments
+(`xij = xi − xj`, `rij = sqrt(xij·xij)`, then the kernel's `kernel` / `gradient`) -/
+theorem wrapper_history_independent {α : Type} (o : Ops α)
+    (hfull : ∀ x r h b b', o.gradient x r h b = o.gradient x r h b') (z : V3 α) (s : St α)
+    (cs : List (Call α)) :
+    observe o Gen.KernelWrapper.code s cs = cs.map (pureResult o z) := by
+  rw [table_wrapper_code]
+  exact observe_canonical o hfull z cs s
+
+/-- **the wrapper returns the kernel's numbers**: over ℝ, on every generated table, every history:
+`Wrapper.kernel = W(|xi − xj|, h)`, `Wrapper.gradient[i] = gradient_i(xi − xj, |xi − xj|, h)` -/
+theorem wrapper_returns_kernel_values (K : KTable) (s : St ℝ) (cs : List (Call ℝ)) :
+    observe (realOps K) Gen.KernelWrapper.code s cs = cs.map (wrapperSpec K) := by
+  rw [wrapper_history_independent (realOps K) (fun _ _ _ _ _ => rfl) ⟨0, 0, 0⟩ s cs]
+  exact List.map_congr_left (fun c _ => pureResult_realOps K _ c)
+
+/-- … hence `Wrapper.gradient` is `dW/dr` times the unit separation vector above the guard … -/
+theorem wrapper_gradient_is_dWdr_times_unit_vector (K : KTable) (hK : K ∈ all) (c : Call ℝ)
+    (hc : c.isGrad = true) (hr : (K.rmin : ℝ) < distR c) :
+    wrapperSpec K c =
+      [dwdq K (distR c) c.h * c.h⁻¹ / distR c * (sepR c).x,
+       dwdq K (distR c) c.h * c.h⁻¹ / distR c * (sepR c).y,
+       dwdq K (distR c) c.h * c.h⁻¹ / distR c * (sepR c).z] := by
+  obtain ⟨g0, g1, g2⟩ := gradient_is_dwdq_times_unit_vector K hK (distR c) c.h
+    (sepR c).x (sepR c).y (sepR c).z hr
+  simp only [wrapperSpec, hc, if_true, g0, g1, g2]
+
+/-- … and vanishes (all three components, and the kernel value) outside the support. -/
+theorem wrapper_support (K : KTable) (hK : K ∈ all) (c : Call ℝ) (hh : 0 < c.h)
+    (hr : (K.radius : ℝ) * c.h ≤ distR c) :
+    wrapperSpec K c = if c.isGrad then [0, 0, 0] else [0] := by
+  obtain ⟨hw, _, hg⟩ := support K hK (distR c) c.h hh hr
+  obtain ⟨g0, g1, g2⟩ := hg (sepR c).x (sepR c).y (sepR c).z
+  unfold wrapperSpec
+  split <;> simp [hw, g0, g1, g2]
+
+/-- the model can tell the difference: a `return` of a view of `self.grad` is overwritten by
+the next call (integers, a toy kernel whose gradient is the separation itself) -/
+example :
+    let o : Ops Int := ⟨(· - ·), (· + ·), (· * ·), id, fun _ r _ => r, fun x _ _ _ => x, 0⟩
+    let viewCode : Code := { canonical with gradient := { canonical.gradient with ret := .view .grad } }
+    let cs : List (Call Int) := [⟨true, ⟨1, 0, 0⟩, ⟨0, 0, 0⟩, 1⟩, ⟨true, ⟨5, 7, 0⟩, ⟨0, 0, 0⟩, 1⟩]
+    observeNow o viewCode ⟨⟨0, 0, 0⟩, ⟨0, 0, 0⟩⟩ cs = [[1, 0, 0], [5, 7, 0]] ∧
+    observe o viewCode ⟨⟨0, 0, 0⟩, ⟨0, 0, 0⟩⟩ cs = [[5, 7, 0], [5, 7, 0]] ∧
+    observe o canonical ⟨⟨9, 9, 9⟩, ⟨9, 9, 9⟩⟩ cs = [[1, 0, 0], [5, 7, 0]] := by decide
+
+/-- … and a kernel that skips its stores (here: outside `|x| < 3`) makes results depend on the
+history although they are values — the hypothesis `hfull` is what excludes it -/
+example :
+    let o : Ops Int := ⟨(· - ·), (· + ·), (· * ·), id, fun _ r _ => r,
+      fun x _ _ b => if x.x < 3 then x else b, 0⟩
+    let cs : List (Call Int) := [⟨true, ⟨1, 0, 0⟩, ⟨0, 0, 0⟩, 1⟩, ⟨true, ⟨5, 7, 0⟩, ⟨0, 0, 0⟩, 1⟩]
+    observe o canonical ⟨⟨0, 0, 0⟩, ⟨0, 0, 0⟩⟩ cs = [[1, 0, 0], [1, 0, 0]] := by decide
+
+end wrapper
 
 /-! ## non-vacuity: the tables are not trivial -/
 
